@@ -125,7 +125,7 @@ func main() {
 		plan.Workers = runtime.NumCPU()
 	}
 	if plan.Solver == "" {
-		plan.Solver = "z3"
+		plan.Solver = "z3-new"
 	}
 	t0 := time.Now()
 	ov, _ := buildOverlay(plan.Repo, plan.Harness)
@@ -162,7 +162,7 @@ func main() {
 		r := runItem(prog, it, &plan, known, *verbose)
 		out.Results = append(out.Results, r)
 		if *verbose {
-			fmt.Fprintf(os.Stderr, "%-60s %-12s paths=%d q=%d solver=%.1fs wall=%.1fs %s\n", it.Fn+" "+it.Tag, r.Status, r.Paths, r.Queries, r.SolverS, r.WallS, r.Reason)
+			fmt.Fprintf(os.Stderr, "%-60s %-12s paths=%d q=%d solver=%.1fs wall=%.1fs %s\n", it.Fn+" "+it.Tag, r.Status, r.Paths, r.Queries, r.SolverS, r.WallS, fmt.Sprint(r.Outcomes, r.Covers, " ", r.Reason))
 			for _, k := range sortedKeys(r.Sites) {
 				fmt.Fprintf(os.Stderr, "      %s x%d\n", k, r.Sites[k])
 			}
